@@ -38,7 +38,8 @@ func init() {
 
 // iv is an interval over integers (exact) or floats (outward rounded), or a tri-state boolean.
 type iv struct {
-	kind     byte // 'i', 'f', 'b'
+	kind     byte // 'i', 'f', 'b'; 't': a table (slice built once by the package initialiser)
+	tbl      []iv
 	ilo, ihi *big.Int
 	flo, fhi float64
 	bt, bf   bool // boolean may be true / may be false
@@ -56,6 +57,8 @@ func (a iv) String() string {
 		return "[" + a.ilo.String() + "," + a.ihi.String() + "]"
 	case 'f':
 		return fmt.Sprintf("[%g,%g]", a.flo, a.fhi)
+	case 't':
+		return fmt.Sprintf("table%v", a.tbl)
 	}
 	return fmt.Sprintf("bool(t=%v,f=%v)", a.bt, a.bf)
 }
@@ -309,6 +312,12 @@ func (it *interp) evalFunc(fn *ssa.Function, args []iv) (iv, error) {
 				switch x.Op {
 				case token.MUL:
 					g, ok := x.X.(*ssa.Global)
+					if ia, isIA := x.X.(*ssa.IndexAddr); isIA && !ok {
+						if ev, has := vals[ia]; has {
+							vals[x] = ev // element of a table, selected below
+							continue
+						}
+					}
 					if !ok {
 						// a load this interpreter cannot follow (a flag's target, a field): any
 						// value of its type — sound, and an error only if the type is not integral
@@ -402,8 +411,30 @@ func (it *interp) evalFunc(fn *ssa.Function, args []iv) (iv, error) {
 					return iv{}, err
 				}
 				vals[x] = r
+			case *ssa.IndexAddr:
+				// an element of a table built by the initialiser: the join of the entries the index can select
+				if t, has := vals[x.X]; has && t.kind == 't' {
+					ix, err := get(x.Index)
+					if err != nil {
+						return iv{}, err
+					}
+					if ix.kind != 'i' || ix.ilo.Sign() < 0 || ix.ihi.Cmp(big.NewInt(int64(len(t.tbl)))) >= 0 {
+						return iv{}, fmt.Errorf("index %s of a %d-entry table may be out of range at %s", ix, len(t.tbl), it.p.Pos(x.Pos()))
+					}
+					var acc iv
+					for k := ix.ilo.Int64(); k <= ix.ihi.Int64(); k++ {
+						acc = acc.join(t.tbl[k])
+					}
+					vals[x] = acc
+				}
 			case *ssa.Call:
 				callee := CalleeName(x.Common())
+				if b, isB := x.Call.Value.(*ssa.Builtin); isB && b.Name() == "len" {
+					if t, has := vals[x.Call.Args[0]]; has && t.kind == 't' {
+						vals[x] = ivI64(int64(len(t.tbl)), int64(len(t.tbl)))
+						continue
+					}
+				}
 				switch callee {
 				case "math/rand.Float64", "math/rand/v2.Float64":
 					vals[x] = ivF(0, 1)
@@ -416,7 +447,12 @@ func (it *interp) evalFunc(fn *ssa.Function, args []iv) (iv, error) {
 				default:
 					f := StaticFunc(x.Common())
 					if f == nil || !it.p.IsModFunc(f) {
-						// no value: an error only if the result is needed (log calls are not)
+						// a call outside the module (an atomic load, strconv): any value of its
+						// integral result type; otherwise no value — an error only if the result
+						// is needed (log calls are not)
+						if lo, hi, isInt := typeRange(x.Type()); isInt {
+							vals[x] = ivInt(lo, hi)
+						}
 						continue
 					}
 					var as []iv
@@ -565,10 +601,15 @@ func (it *interp) evalValue(v ssa.Value, depth int) (iv, error) {
 			}
 		case *ssa.Phi:
 			var acc iv
-			for _, e := range x.Edges {
+			for k, e := range x.Edges {
 				a, err := it.evalValue(e, depth+1)
 				if err != nil {
 					return iv{}, err
+				}
+				// the edge leaves a comparison of this very value with a constant
+				// (an inline clamp: if n < min { n = min })
+				if a.kind == 'i' && k < len(x.Block().Preds) {
+					a = it.refineEdge(a, e, x.Block().Preds[k], x.Block(), depth)
 				}
 				acc = acc.join(a)
 			}
@@ -787,6 +828,252 @@ func staticGlobals(c *Ctx, p *Prog, it *interp) {
 			it.globals[name] = x
 		}
 	}
+	// tables: a slice built once by a constructor called from the initialiser (a loop that
+	// fills make([]T, <constant>) element by element from its index) and never written afterwards
+	for name, sts := range stores {
+		if _, done := it.globals[name]; done || len(sts) != 1 || sts[0].Parent() != initFn {
+			continue
+		}
+		call, ok := sts[0].Val.(*ssa.Call)
+		if !ok {
+			continue
+		}
+		f := StaticFunc(call.Common())
+		if f == nil || !p.IsModFunc(f) || len(PArgs(call.Common())) != 0 {
+			continue
+		}
+		g, _ := sts[0].Addr.(*ssa.Global)
+		if g == nil || !globalElementsNeverWritten(p, g) {
+			continue
+		}
+		if t, ok := it.evalTable(f); ok {
+			it.globals[name] = t
+		}
+	}
+}
+
+// globalElementsNeverWritten: no function stores through an element address of the
+// package-level slice or appends to it (the table is read-only after initialisation).
+func globalElementsNeverWritten(p *Prog, g *ssa.Global) bool {
+	ok := true
+	for _, fn := range p.AllFuncs {
+		EachInstrRaw(fn, func(i ssa.Instruction) {
+			ld, isL := i.(*ssa.UnOp)
+			if !isL || ld.Op != token.MUL || ld.X != ssa.Value(g) {
+				return
+			}
+			for _, r := range Refs(ld) {
+				switch u := r.(type) {
+				case *ssa.IndexAddr:
+					for _, rr := range Refs(u) {
+						if st, isS := rr.(*ssa.Store); isS && st.Addr == ssa.Value(u) {
+							ok = false
+						}
+					}
+				case *ssa.UnOp, *ssa.Index:
+				case *ssa.Call:
+					if b, isB := u.Call.Value.(*ssa.Builtin); !isB || (b.Name() != "len" && b.Name() != "cap") {
+						ok = false
+					}
+				default:
+					ok = false // sliced, passed on, stored elsewhere: not followed
+				}
+			}
+		})
+	}
+	return ok
+}
+
+// evalTable evaluates a table constructor of the shape
+//
+//	t := make([]T, <L>); for i := range t { t[i] = <expr of i and constants> }; return t
+//
+// (or the classic three-clause loop over 0..len(t)-1) element by element.
+func (it *interp) evalTable(f *ssa.Function) (iv, bool) {
+	var mk *ssa.MakeSlice
+	n := 0
+	EachInstrRaw(f, func(i ssa.Instruction) {
+		if m, ok := i.(*ssa.MakeSlice); ok {
+			mk = m
+			n++
+		}
+	})
+	if n != 1 {
+		return iv{}, false
+	}
+	for _, r := range Returns(f) {
+		if len(r.Results) != 1 || r.Results[0] != ssa.Value(mk) {
+			return iv{}, false
+		}
+	}
+	ln, ok := it.evalExpr(mk.Len, nil, 0)
+	if !ok || ln.kind != 'i' || ln.ilo.Cmp(ln.ihi) != 0 || !ln.ilo.IsInt64() || ln.ilo.Int64() < 1 || ln.ilo.Int64() > 4096 {
+		return iv{}, false
+	}
+	L := ln.ilo.Int64()
+	// the only use of the slice besides len/return: one element store
+	var ia *ssa.IndexAddr
+	for _, r := range Refs(mk) {
+		switch u := r.(type) {
+		case *ssa.IndexAddr:
+			if ia != nil {
+				return iv{}, false
+			}
+			ia = u
+		case *ssa.Return:
+		case *ssa.Call:
+			if b, isB := u.Call.Value.(*ssa.Builtin); !isB || b.Name() != "len" {
+				return iv{}, false
+			}
+		case *ssa.DebugRef:
+		default:
+			return iv{}, false
+		}
+	}
+	if ia == nil {
+		return iv{}, false
+	}
+	var st *ssa.Store
+	for _, r := range Refs(ia) {
+		s, isS := r.(*ssa.Store)
+		if !isS || s.Addr != ssa.Value(ia) || st != nil {
+			return iv{}, false
+		}
+		st = s
+	}
+	if st == nil {
+		return iv{}, false
+	}
+	// the index enumerates 0..len-1: range form (idx = phi+1, phi = [-1, idx], idx < len) or
+	// classic form (idx = phi, phi = [0, phi+1], phi < len); the body is the single block that
+	// holds the store and jumps back to the loop head
+	isLen := func(v ssa.Value) bool {
+		v = Peel(v)
+		if v == mk.Len {
+			return true
+		}
+		if call, ok := v.(*ssa.Call); ok {
+			if b, isB := call.Call.Value.(*ssa.Builtin); isB && b.Name() == "len" && call.Call.Args[0] == ssa.Value(mk) {
+				return true
+			}
+		}
+		return false
+	}
+	constIs := func(v ssa.Value, want int64) bool {
+		c, ok := v.(*ssa.Const)
+		if !ok || c.Value == nil {
+			return false
+		}
+		x, exact := constant.Int64Val(constant.ToInt(c.Value))
+		return exact && x == want
+	}
+	plusOne := func(v ssa.Value, base ssa.Value) bool {
+		bo, ok := v.(*ssa.BinOp)
+		return ok && bo.Op == token.ADD && bo.X == base && constIs(bo.Y, 1)
+	}
+	idx := ia.Index
+	var head *ssa.BasicBlock
+	var phi *ssa.Phi
+	var condVar ssa.Value
+	if p, ok := idx.(*ssa.Phi); ok && len(p.Edges) == 2 {
+		// classic
+		for k := 0; k < 2; k++ {
+			if constIs(p.Edges[k], 0) && plusOne(p.Edges[1-k], p) {
+				phi, head, condVar = p, p.Block(), p
+			}
+		}
+	} else if bo, ok := idx.(*ssa.BinOp); ok {
+		if p, isP := bo.X.(*ssa.Phi); isP && plusOne(idx, p) && len(p.Edges) == 2 {
+			for k := 0; k < 2; k++ {
+				if constIs(p.Edges[k], -1) && p.Edges[1-k] == idx {
+					phi, head, condVar = p, p.Block(), idx
+				}
+			}
+		}
+	}
+	if phi == nil {
+		return iv{}, false
+	}
+	ifi := BlockIf(head)
+	if ifi == nil {
+		return iv{}, false
+	}
+	cond, ok := ifi.Cond.(*ssa.BinOp)
+	if !ok || cond.Op != token.LSS || cond.X != condVar || !isLen(cond.Y) {
+		return iv{}, false
+	}
+	body := head.Succs[0]
+	if st.Block() != body || len(body.Succs) != 1 || body.Succs[0] != head || len(body.Preds) != 1 {
+		return iv{}, false
+	}
+	out := make([]iv, L)
+	for k := int64(0); k < L; k++ {
+		env := map[ssa.Value]iv{idx: ivI64(k, k)}
+		v, ok := it.evalExpr(st.Val, env, 0)
+		if !ok {
+			return iv{}, false
+		}
+		out[k] = v
+	}
+	return iv{kind: 't', tbl: out}, true
+}
+
+// evalExpr evaluates a side-effect free expression tree over constants, package
+// variables with known values and the values given in env.
+func (it *interp) evalExpr(v ssa.Value, env map[ssa.Value]iv, depth int) (iv, bool) {
+	if depth > 12 {
+		return iv{}, false
+	}
+	if x, ok := env[v]; ok {
+		return x, true
+	}
+	switch x := v.(type) {
+	case *ssa.Const:
+		return it.constIV(x)
+	case *ssa.ChangeType:
+		return it.evalExpr(x.X, env, depth+1)
+	case *ssa.UnOp:
+		if g, ok := x.X.(*ssa.Global); ok && x.Op == token.MUL {
+			gv, ok := it.globals[GlobalName(g)]
+			return gv, ok && gv.kind != 't'
+		}
+	case *ssa.Convert:
+		a, ok := it.evalExpr(x.X, env, depth+1)
+		bt, _ := x.Type().Underlying().(*types.Basic)
+		if !ok || bt == nil || bt.Info()&types.IsInteger == 0 {
+			return iv{}, false
+		}
+		if a.kind == 'f' {
+			if math.IsNaN(a.flo) || math.IsInf(a.flo, 0) || math.IsInf(a.fhi, 0) {
+				return iv{}, false
+			}
+			lo, _ := big.NewFloat(math.Trunc(a.flo)).Int(nil)
+			hi, _ := big.NewFloat(math.Trunc(a.fhi)).Int(nil)
+			a = ivInt(lo, hi)
+		}
+		if a.kind != 'i' {
+			return iv{}, false
+		}
+		lo, hi, isInt := typeRange(x.Type())
+		if !isInt || a.ilo.Cmp(lo) < 0 || a.ihi.Cmp(hi) > 0 {
+			return iv{}, false // would wrap: not a table this rule reads
+		}
+		return a, true
+	case *ssa.BinOp:
+		a, ok1 := it.evalExpr(x.X, env, depth+1)
+		b, ok2 := it.evalExpr(x.Y, env, depth+1)
+		if !ok1 || !ok2 {
+			return iv{}, false
+		}
+		n := len(it.issues)
+		r, err := it.binop(x, a, b)
+		if err != nil || len(it.issues) != n {
+			it.issues = it.issues[:n]
+			return iv{}, false
+		}
+		return r, true
+	}
+	return iv{}, false
 }
 
 func c08Intervals(c *Ctx, p *Prog, fn *ssa.Function) {
@@ -1143,4 +1430,95 @@ func c08ErrorClassification(c *Ctx, p *Prog) {
 		}
 		c.Check("C08.E", "ListPendingRequests:returns-parse-result", p, f.Pos(), okr && nilErr == "", "the error of parseRequestIDs is returned to the polling loop as it is", "ListPendingRequests no longer returns the error of parseRequestIDs unchanged (a nil error can be returned at "+nilErr+" although the call failed): a failing proxy is polled again without back-off")
 	}
+}
+
+// refineEdge narrows the interval a of value e on the control-flow edge
+// pred→blk when pred ends in `if e <op> c` (or `c <op> e`) with c evaluable.
+func (it *interp) refineEdge(a iv, e ssa.Value, pred, blk *ssa.BasicBlock, depth int) iv {
+	if len(pred.Instrs) == 0 || len(pred.Succs) != 2 || pred.Succs[0] == pred.Succs[1] {
+		return a
+	}
+	ifi, ok := pred.Instrs[len(pred.Instrs)-1].(*ssa.If)
+	if !ok {
+		return a
+	}
+	bo, ok := ifi.Cond.(*ssa.BinOp)
+	if !ok {
+		return a
+	}
+	truth := pred.Succs[0] == blk
+	op := bo.Op
+	var other ssa.Value
+	switch {
+	case bo.X == e:
+		other = bo.Y
+	case bo.Y == e:
+		other = bo.X
+		switch op {
+		case token.LSS:
+			op = token.GTR
+		case token.LEQ:
+			op = token.GEQ
+		case token.GTR:
+			op = token.LSS
+		case token.GEQ:
+			op = token.LEQ
+		}
+	default:
+		return a
+	}
+	if !truth {
+		switch op {
+		case token.LSS:
+			op = token.GEQ
+		case token.LEQ:
+			op = token.GTR
+		case token.GTR:
+			op = token.LEQ
+		case token.GEQ:
+			op = token.LSS
+		case token.EQL:
+			op = token.NEQ
+		case token.NEQ:
+			op = token.EQL
+		default:
+			return a
+		}
+	}
+	c, err := it.evalValue(other, depth+1)
+	if err != nil || c.kind != 'i' {
+		return a
+	}
+	one := big.NewInt(1)
+	lo, hi := new(big.Int).Set(a.ilo), new(big.Int).Set(a.ihi)
+	maxOf := func(x, y *big.Int) *big.Int {
+		if x.Cmp(y) >= 0 {
+			return x
+		}
+		return y
+	}
+	minOf := func(x, y *big.Int) *big.Int {
+		if x.Cmp(y) <= 0 {
+			return x
+		}
+		return y
+	}
+	switch op {
+	case token.LSS:
+		hi = minOf(hi, new(big.Int).Sub(c.ihi, one))
+	case token.LEQ:
+		hi = minOf(hi, c.ihi)
+	case token.GTR:
+		lo = maxOf(lo, new(big.Int).Add(c.ilo, one))
+	case token.GEQ:
+		lo = maxOf(lo, c.ilo)
+	case token.EQL:
+		lo, hi = maxOf(lo, c.ilo), minOf(hi, c.ihi)
+	default:
+		return a
+	}
+	if lo.Cmp(hi) > 0 {
+		return a
+	}
+	return ivInt(lo, hi)
 }
